@@ -34,10 +34,10 @@ SHRINK = {"text": ["R", "D", "src", "text", "dest", "title", "label", "variant"]
 
 LABELS = ["a", "r", "foo", "Foo Bar", "ÄÖ ü", "ß", "ẞ", "ΑΓΩ", "x  y z", "q\\]", "i", "ǅ", "Σας", "a1", "long label here", "É", "ﬁ", "K"]
 DESTS = ["/u", "<a b>", "http://x.y/?q=1&r=2", "u(v)w", "\\(x", "&amp;x", "javascript:x", "/ü", "#f", "<>", "/a*b*", "<u\\>v>", "mailto:a@b.c", "/%20", "u\\)"]
-TITLES = ["", "", '"t"', "'t u'", "(p)", '"a \\" b"', '"&quot;e"', '"multi\nline"', "'a\nb c'", '"*e*"', "(a \\) b)"]
+TITLES = ["", "", '"a&#10;b"', "'x&NewLine;y'", '"&#xA;"', '"t"', "'t u'", "(p)", '"a \\" b"', '"&quot;e"', '"multi\nline"', "'a\nb c'", '"*e*"', "(a \\) b)"]
 SAFE_LABELS = ["a", "b", "foo", "Foo Bar", "ÄÖ", "x y", "r1", "r2", "ß"]
 SAFE_DESTS = ["/u", "<a b>", "http://x.y/", "/v", "#f"]
-SAFE_TITLES = ["", ' "t"', " 'u v'", " (p)", '\n"next line"', '\n  "multi\nline title"']
+SAFE_TITLES = ["", ' "a&#10;b"', "\t'x&NewLine;y'", '\t"t"', ' "t"', " 'u v'", " (p)", '\n"next line"', '\n  "multi\nline title"']
 INL = ["a", "b c", "*e*", "**s**", "`c`", "\\[", "\\]", "&amp;", "x_y", "<b>", "![i](s)", "é"]
 
 
@@ -63,7 +63,7 @@ def gen_defs(d: gen.D, labels=None) -> str:
         dest = d.pick(DESTS)
         t = d.pick(TITLES)
         sep = d.pick([" ", "\n", "  ", "\n   ", "\t"])
-        out += d.pick(["", "", " ", "   "]) + "[" + lab + "]:" + sep + dest + ((d.pick([" ", "\n", "  "]) + t) if t else "") + "\n"
+        out += d.pick(["", "", " ", "   "]) + "[" + lab + "]:" + sep + dest + ((d.pick([" ", "\n", "  ", "\t", " \t"]) + t) if t else "") + "\n"
         if d.chance(0.2):
             out += "\n"
     return out
@@ -97,7 +97,7 @@ def _case(draw):
                 lab = d.pick(SAFE_LABELS)
                 if d.chance(0.4):
                     lab = "".join(c.upper() if d.chance(0.5) else c.lower() for c in lab)
-                blocks.append(["def", "[" + lab + "]: " + d.pick(SAFE_DESTS) + d.pick(SAFE_TITLES)])
+                blocks.append(["def", "[" + lab + "]:" + d.pick([" ", " ", "\t", "  ", " \t"]) + d.pick(SAFE_DESTS) + d.pick(SAFE_TITLES)])
             else:
                 blocks.append(["other", d.pick(["para text", "# h", "> q", "- item", "```\ncode\n```", "***", "p1\np2", "[a] [b][foo] ![x][r1]"])])
         wrap = d.pick(["", "", "> ", "- "])
@@ -124,7 +124,7 @@ def _case(draw):
         title = "'" + tcore.replace("'", "\\'").replace("\\\\'", "\\'") + "'"
     else:
         title = "(" + tcore + ")"
-    return {"kind": kind, "cfg": cfg, "text": text, "dest": dest, "title": title, "image": d.chance(0.4), "sep": d.pick([" ", "  ", "\n"]) if title else ""}
+    return {"kind": kind, "cfg": cfg, "text": text, "dest": dest, "title": title, "image": d.chance(0.4), "sep": d.pick([" ", "  ", "\n", "\t", " \t "]) if title else "", "sep0": d.pick([" ", " ", "\t", "  ", "\n", ""])}
 
 
 def strategy(tier: str):
@@ -252,7 +252,8 @@ def check_label(case, res: Res, md) -> None:
 def check_inline(case, res: Res, md) -> None:
     text, dest, title, sep = case["text"], case["dest"], case["title"], case.get("sep", " ")
     bang = "!" if case.get("image") else ""
-    ref_doc = f"{bang}[{text}][r]\n\n[r]: {dest}{sep if title else ''}{title}\n"
+    sep0 = case.get("sep0", " ")
+    ref_doc = f"{bang}[{text}][r]\n\n[r]:{sep0}{dest}{sep if title else ''}{title}\n"
     inl_doc = f"{bang}[{text}]({dest}{sep if title else ''}{title})\n"
     t_ref = md.parse(ref_doc)
     t_inl = md.parse(inl_doc)
@@ -271,6 +272,11 @@ def check_inline(case, res: Res, md) -> None:
     inl_ok = b is not None and b.children and b.children[0].type == kind and (bang or b.children[-1].type == "link_close") and sum(1 for t in t_inl if t.type == "paragraph_open") == 1
     if not ref_ok:
         res.cls.append("inline:ref-form-unresolved" + ("(inline form is a link)" if inl_ok else ""))
+        if inl_ok and "\n" not in sep0 and dest.strip() and dest not in ("<>",) and "\n" not in title and (not title or sep.strip(" \t\n") == "" and sep != ""):
+            # within this constructed domain (non-empty destination, well-formed single-line title, blank separators)
+            # both grammars accept the same spellings, so the converse holds as well
+            res.nt = True
+            res.fail("inline:reference-form-not-a-link", f"{inl_doc!r} is a link/image but {ref_doc!r} -> {md.render(ref_doc)!r}")
         return
     res.nt = True
     res.cls.append("inline:checked")
